@@ -10,29 +10,43 @@ type Iterator interface {
 	Next() interface{}
 }
 
+// ranger yields pos, pos+1, ... end. It never computes a value outside
+// [pos, end], so intervals touching the limits of int do not overflow.
 type ranger struct {
-	pos int
-	end int
+	pos  int // next number to yield
+	end  int // last number to yield
+	done bool
 }
 
 func (r *ranger) Next() interface{} {
-	if r.pos < r.end {
-		r.pos++
-		return r.pos
+	if r.done {
+		return nil
 	}
-	return nil
+	v := r.pos
+	if r.pos >= r.end {
+		r.done = true
+	} else {
+		r.pos++
+	}
+	return v
 }
 
 func rangeHelper(a, b int) Iterator {
-	return &ranger{pos: a - 1, end: b}
+	return &ranger{pos: a, end: b, done: a > b}
 }
 
 func betweenHelper(a, b int) Iterator {
-	return &ranger{pos: a, end: b - 1}
+	if a >= b || a+1 >= b {
+		return &ranger{done: true}
+	}
+	return &ranger{pos: a + 1, end: b - 1}
 }
 
 func untilHelper(a int) Iterator {
-	return &ranger{pos: -1, end: a - 1}
+	if a <= 0 {
+		return &ranger{done: true}
+	}
+	return &ranger{pos: 0, end: a - 1}
 }
 
 func GroupByHelper(size int, underlying interface{}) (*groupBy, error) {
